@@ -48,4 +48,6 @@ size_t zv_lower_bound(const size_t* offs, size_t first, size_t count, size_t val
 int zv_map_init_log(unsigned size);               /* sizeLog, or -1 when COVER_map_init fails */
 unsigned zv_map_hash(unsigned sizeLog, unsigned key);
 unsigned long long zv_fnv(const void* p, size_t n);
+/* round 3: offcodeMax chosen by the real ZDICT_analyzeEntropy for a dictionary of dictSize bytes (-1 = error returned) */
+int zv_offcode_max(unsigned long long dictSize);
 #endif
